@@ -6,17 +6,19 @@ slicer) over one dataset is executed in every way the library offers and
 compared with the boring way (one fused stage, no threads, whole data source):
 
  1. sequential strategies (plain enumeration, E3): every grouping of
-    [source, op.., aggregate] into named stages (all cut sets; same name =>
+    [source, op.., aggregate(s)] into named stages (all cut sets; same name =>
     fused by `chain`), x shard counts 1..4 (shards of the SequenceDataSource,
     through `make(shard=ShardConfig(i, k))` for a single stage and through
-    `data_source(ds.shard(i, k))` for any grouping; states merged with
-    `merge_states`, result by `get_result`), and the record-at-a-time driver
-    `update_state` + `merge_states` + `get_result`;
+    `data_source(ds.shard(i, k))` for the groupings; round-robin shards of a
+    ShardedIterable in the thorough tier; states merged with `merge_states`,
+    result by `get_result`), and the record-at-a-time driver `update_state` +
+    `merge_states` + `get_result`;
  2. threaded strategies (E1, every schedule within a preemption bound):
     `num_threads` in 1..3 over a shardable source (k shard iterators, k
     enqueuing workers) and over a non-shardable one (k workers behind one
     locked iterator), fused and chained, with the threads in the first or in a
-    later stage;
+    later stage (whose workers then share the previous stage's iterator and
+    its aggregate);
  3. the interleaved stage runner `orchestrate.run_pipeline_interleaved` in
     process (every stage on its own thread, (Async)IteratorQueues between
     them), every schedule within preemption bound 0 and delay bound 1.
@@ -25,8 +27,6 @@ Oracle: same multiset of emitted batches (of rows when the program re-batches
 and the strategy moves batch boundaries), same `agg_result`, same
 AggregateResult through StopIteration.value; every helper thread finished.
 """
-import collections
-
 from vmc import charness, enums, explorer, sharness
 from vmc.runner import Stats
 
@@ -286,11 +286,14 @@ def thread_configs(tier):
       c(ops=['ap'], agg='bag', n=2, source='seq', cuts=[1, 2], threads={1: 1}),
   ]
   # two workers + consumer
+  # the smallest 2-worker configurations: more workers than records over a
+  # sharded source (one shard is empty) and over one shared iterator
   two_deep = [
       c(ops=[], agg='bag', n=1, source='seq', threads=2),
-      c(ops=[], agg='bag', n=2, source='stream', threads=2),
+      c(ops=[], agg='bag', n=1, source='stream', threads=2),
   ]
   two_more = [      # thorough only
+      c(ops=[], agg='bag', n=2, source='stream', threads=2),
       c(ops=['ap'], agg=None, n=3, source='seq', threads=2),
       c(ops=['ap'], agg=None, n=3, source='stream', threads=2),
       c(ops=['fi', 'aw'], agg='metric/a', n=4, source='seq', threads=2),
@@ -324,7 +327,9 @@ def thread_configs(tier):
              'blocking points)', 0, three)]
   return [('1 worker + consumer, preemption bound 3', 3, one_deep),
           ('1 worker + consumer, preemption bound 2', 2, one),
-          ('2 workers + consumer, preemption bound 2', 2, two_deep),
+          ('2 workers + consumer (1 record), preemption bound 2 - with 2 or '
+           'more records bound 2 exceeds 10^5 executions per configuration, '
+           'those stay at bound 1', 2, two_deep),
           ('2 workers + consumer, preemption bound 1', 1, two + two_more),
           ('3 workers + consumer, preemption bound 1', 1, three)]
 
@@ -352,7 +357,8 @@ def interleaved_configs(tier):
 
 # =============================================================================
 
-SPLIT = 4     # subtrees per E1 configuration (each has its own hb cache)
+SPLIT = {'quick': 4, 'thorough': 12}   # subtrees per E1 configuration (each
+                                       # has its own happens-before cache)
 
 
 def _prepare_all():
@@ -400,7 +406,10 @@ def run(ctx):
   ctx.rule = (
       'programs: every list of <= 3 operators from %s (no assign key twice), '
       'plus every list of <= 2 of them followed by a re-batching apply '
-      '(batch_size 1 or 2), aggregates: /a = sliced by feature a (%s); '
+      '(batch_size 1 or 2); aggregates: bag = immutable state, inplace = state '
+      'mutated in place, metric = as_agg_fn(MergeableMetric), /a = sliced by '
+      'feature a, bag+inplace = two aggregates as two groupable elements '
+      '(%s); '
       'datasets: n = 0..%d records (batches of %s rows); sequential '
       'strategies: every cut set of [source, ops.., aggregate] into named '
       'stages x whole source, shard counts 1..4 (%s) through '
@@ -439,10 +448,10 @@ def run(ctx):
   seeds = []
   limits = {'max_execs': None, 'time_limit': None, 'hb_cache': True}
   if 'threads' in only:
-    seeds += [('vmc.sharness', n, p, (bound, 0), SPLIT, limits)
+    seeds += [('vmc.sharness', n, p, (bound, 0), SPLIT[ctx.tier], limits)
               for _, bound, cfgs in tgroups for n, p in cfgs]
   if 'interleaved' in only:
-    seeds += [('vmc.charness', n, p, (bound, 0), SPLIT, limits)
+    seeds += [('vmc.charness', n, p, (bound, 0), SPLIT[ctx.tier], limits)
               for _, bound, cfgs in igroups for n, p in cfgs]
   work = []
   for st in _pool_map(_seed, seeds):
